@@ -80,7 +80,7 @@ def load_dcop_from_file(filenames: Union[str, Iterable[str]]):
     content = ""
     main_dir = None
 
-    if not isinstance(filenames, CollectionIterable):
+    if isinstance(filenames, str) or not isinstance(filenames, CollectionIterable):
         filenames = [filenames]
 
     for filename in filenames:
